@@ -456,6 +456,12 @@ def write_evidence(ctx, nviol, matched_known):
         "violations": nviol,
     }
     os.makedirs(os.path.join(ROOT, "evidence"), exist_ok=True)
+    if not cov["evaluations"]:
+        # nothing was observed (the harness did not build, say): that is no evidence at all, and a
+        # document with zero evaluations does not validate. The run is reported as inconclusive
+        # on stdout and by the exit code; the last run that observed something stays on file.
+        print("NOTE property=%s nothing was evaluated: evidence/%s.json left as the last completed run wrote it" % (ctx.prop, ctx.prop))
+        return
     with open(os.path.join(ROOT, "evidence", ctx.prop + ".json"), "w") as f:
         json.dump(ev, f, indent=1, ensure_ascii=False)
 
